@@ -178,6 +178,8 @@ def _gen_wrapper(prop, job):
     call_kw = ['%s=%s' % (p, p) for p in params]
     conc = dict(ob.fixed)
     conc.update(job.call_shard)
+    for p in params:                     # a parameter made symbolic in this tier overrides its fixed value
+        conc.pop(p, None)
     call_kw += ['%s=%r' % kv for kv in sorted(conc.items())]
     call = '_h(%s)' % ', '.join(call_kw)
     doc = ''.join('    pre: %s\n' % p for p in pres)
